@@ -11,6 +11,7 @@ here (same comparison operators; this is the code AFTER the repairs fix F09a [`!
 
     if state.windowData.WindowSize != windowData.WindowSize { state.windowEndTime = epochTime }   -- F09c
     state.windowData = windowData
+    if !windowData.SpilloverEnabled { state.spillover = 0 }                                        -- F09f
     ensureWindowIsUpdated():  start := (now / W) * W ; end := start + W
                               if !now.Before(state.windowEndTime) {          -- F09a: not strict
                                  if SpilloverEnabled && windowEndTime != epoch {
@@ -51,9 +52,25 @@ def ratioUnits : Ratio → Int
   | .one => 100000000
   | .pct n d => if d = 0 then 0 else (((2 * n * 1000000 + d) / (2 * d) : Nat) : Int)
 
-/-- Go (after fix F09b): `scaledCeil(allowed+spill, ratio)` = ⌈total · units / 1e8⌉ in integers
-    (truncating division plus one when a positive product leaves a remainder). -/
-def capUnits : CapFn := fun total r => -((-(total * ratioUnits r)) / 100000000)
+/-- Go's truncating `/` on int64 by the positive constant 1e8 (expressed with Lean's flooring division). -/
+def tdivR (x : Int) : Int := if 0 ≤ x then x / 100000000 else -((-x) / 100000000)
+
+/-- Go's `%` on int64 by 1e8: the remainder has the sign of the dividend. -/
+def tmodR (x : Int) : Int := x - 100000000 * tdivR x
+
+/-- Go (fix F09b, overflow-free form): `scaledCeil(count, ratio)` with `units = int64(math.Round(ratio*1e8))`:
+      whole, rest := count/1e8, count%1e8 ; product := rest*units
+      result := whole*units + product/1e8 ; if product > 0 && product%1e8 != 0 { result++ }
+    Unbounded integers here; that no intermediate leaves int64 is theorem `scaledCeil_no_overflow`. -/
+def capGo (count units : Int) : Int :=
+  let whole := tdivR count
+  let rest := tmodR count
+  let product := rest * units
+  let result := whole * units + tdivR product
+  if 0 < product ∧ tmodR product ≠ 0 then result + 1 else result
+
+/-- `scaledCeil(allowed+spill, ratio)` = ⌈total · units / 1e8⌉ (theorem `capGo_eq_ceil`). -/
+def capUnits : CapFn := fun total r => capGo total (ratioUnits r)
 
 -- build-time TESTS: 100 × 7 % is 7 (was 8 with the float64 product: F09b)
 #guard capUnits 100 (.pct 7 1) == 7
@@ -61,6 +78,8 @@ def capUnits : CapFn := fun total r => -((-(total * ratioUnits r)) / 100000000)
 #guard capUnits 5 .one == 5
 #guard capUnits (-3) (.pct 50 1) == -1
 #guard capUnits 10 (.pct 725 100) == 1
+#guard capUnits 100000000000 .one == 100000000000
+#guard capUnits 9223372036854775807 (.pct 50 1) == 4611686018427387904
 
 /-- Day of month (UTC) of an instant, civil-from-days. `time.Time.Day()` with `time.Local = UTC`. -/
 def dayOfMonth (ns : Nat) : Int :=
@@ -100,10 +119,12 @@ def ensure (now : Nat) (s : KeyState) : KeyState :=
     { s with counter := 0, spill := spill, windowEnd := endT }
   else s
 
-/-- First statement of `TryToIncrement`: a changed window size forgets the stored window end, then the new
-    window data is stored. -/
+/-- First statements of `TryToIncrement`: a changed window size forgets the stored window end (fix F09c), the
+    new window data is stored, and spill-over collected earlier is dropped when the feature is off (fix F09f). -/
 def adjust (wd : WindowData) (s : KeyState) : KeyState :=
-  if s.wd.W != wd.W then { s with windowEnd := 0, wd := wd } else { s with wd := wd }
+  let spill := if wd.spillOn then s.spill else 0     -- fix F09f: no spill-over once the feature is off
+  if s.wd.W != wd.W then { s with spill := spill, windowEnd := 0, wd := wd }
+  else { s with spill := spill, wd := wd }
 
 /-- `singleRateLimitState.TryToIncrement`; `true` = Proceed. -/
 def tryInc (cap : CapFn) (now : Nat) (wd : WindowData) (s : KeyState) : KeyState × Bool :=
